@@ -216,7 +216,8 @@ func (C09) Gen(r *core.Rng, tier string, emit func(string)) {
 	for i := 0; i < n; i++ {
 		names := []string{"a", "b", "c"}[:1+r.Intn(3)]
 		ops := randScript(r, names, 1+r.Intn(8), 0, []string{"ok"})
-		cacheMB := []int{64, 1}[r.Intn(2)]
+		// 0: every inserted entry is already over the limit (it must be evicted at once, and the loop must stop)
+		cacheMB := []int{64, 1, 64, 1, 0}[r.Intn(5)]
 		emit(traceLine(cacheMB, ops))
 		emit(fmt.Sprintf("srvscript %d %s", cacheMB, strings.Join(ops, " ")))
 	}
